@@ -17,7 +17,10 @@ import itertools
 from . import c13_gen as G
 
 PROPERTY = 'C13'
-GEN_MODULES = ['lexgen', 'literals']
+# the component theorems of Props/C13Components.lean / C13Sites.lean / C13Codegen.lean are corollaries of the owners' theorems over the
+# REGENERATED models: regenerate every one of them here too, so that a change of a translated function (e.g. the division guard of the
+# constant folder) breaks the C13 obligation that rests on it and not only the owner's check
+GEN_MODULES = ['lexgen', 'literals', 'consteval', 'hashmap', 'pp', 'c10incl', 'declspec', 'casttable', 'templates', 'c14args']
 LEAN_TARGETS = ['ChibiVerif.Props.C13', 'ChibiVerif.Props.C13Components', 'ChibiVerif.Props.C13Sites', 'ChibiVerif.Props.C13Codegen',
                 'ChibiVerif.Findings.C13', 'ChibiVerif.Findings.C13Sites']
 PROPS_FILES = ['ChibiVerif/Props/C13.lean', 'ChibiVerif/Props/C13Components.lean', 'ChibiVerif/Props/C13Sites.lean',
@@ -1098,6 +1101,28 @@ def search(ctx, broken, corr):
             d = b['what']
             return {'what': f"{d.get('kind')}: {d.get('note', '')}", 'input': d.get('input'), 'input_b64': d.get('input_b64'),
                     'opts': d.get('opts', []), 'expected': d.get('model'), 'got': d.get('impl')}
+    # a proof over a regenerated component model broke: directed grids for the components whose failure mode is a host trap.
+    # Constant folder: every pair of boundary operands under / and % (one declaration per line; the first line that kills cc1 is the replay)
+    try:
+        runner = Runner(ctx)
+        for form in ('static long g = ({a}) {op} ({b});', '#if ({a}) {op} ({b})\nint g;\n#endif', 'enum {{ g = (int)((({a}) {op} ({b})) & 1) }};'):
+            for op in ('/', '%'):
+                for a in G.CONST_EDGE:
+                    for b in G.CONST_EDGE:
+                        if b.strip('()ul') == '0':
+                            continue
+                        text = form.format(a=a, b=b, op=op)
+                        if form.startswith('#if'):
+                            text = text.replace('u)', ')').replace('l)', ')')
+                        case = {'gen': 'search-constfold', 'family': 'search', 'data': (text + '\n').encode(), 'opts': [], 'textual': True}
+                        r = runner.run_case(case, which='plain')
+                        f = r['final']
+                        if f['cls'] in ('signal', 'internal-error', 'assertion', 'timeout', 'silent-nonzero'):
+                            return {'what': f'cc1 outcome {f["cls"]} at {f["site"]} (directed constant-folding grid)', 'signature': f['sig'],
+                                    'input': text, 'input_b64': b64((text + '\n').encode()), 'opts': [],
+                                    'expected': 'exit 0 or a located diagnostic', 'got': f"{f['cls']} {f.get('detail', '')}"}
+    except Exception as e:
+        ctx.notes.append(f'directed search raised {type(e).__name__}: {e}')
     return None
 
 
